@@ -1,13 +1,14 @@
 import PyRt
 import Gen.util
 import Lemmas.Hoare
+import Lemmas.Regex
 import Lemmas.Str
 /-!
 # Lemmas.Util — facts about the *generated* `stdnum.util` (`clean`, `isdigits`)
 
 These are re-proved against the regenerated definitions on every run: a change to `util.py` that alters
 what `clean` or `isdigits` compute breaks them (and everything that depends on them).
-(`IsDigits`, `isDigitsB`, `join_nil_chars`, `strIn_single` live in `Lemmas.Str`.)
+(`IsDigits`, `isDigitsB`, `join_nil_chars`, `strIn_single`, `dictGet?_mem` live in `Lemmas.Str`.)
 -/
 open Py Std.Do
 set_option mvcgen.warning false
@@ -27,28 +28,6 @@ def cleanP (s d : Str) : Str := (s.map cm).filter (fun c => !d.contains c)
 
 /-- all keys and values of the table are one-character strings (kernel-evaluated on the generated table) -/
 theorem char_map_single : ∀ p ∈ Gen.util._char_map, p.1.length = 1 ∧ p.2.length = 1 := by decide +kernel
-
-/-- a successful look-up returns an entry of the association list -/
-theorem dictGet?_mem {κ ν : Type} [BEq κ] [LawfulBEq κ] (d : List (κ × ν)) (k : κ) (v : ν)
-    (h : Py.dictGet? d k = some v) : (k, v) ∈ d := by
-  unfold Py.dictGet? at h
-  cases hf : List.find? (fun p => p.1 == k) d with
-  | none => simp [hf] at h
-  | some p =>
-    rw [hf] at h
-    simp only [Option.map_some, Option.some.injEq] at h
-    have hm := List.mem_of_find?_eq_some hf
-    have hk := List.find?_some hf
-    simp only [beq_iff_eq] at hk
-    subst hk h
-    exact hm
-
-/-- a failed look-up: no entry has this key -/
-theorem dictGet?_none {κ ν : Type} [BEq κ] [LawfulBEq κ] (d : List (κ × ν)) (k : κ)
-    (h : Py.dictGet? d k = none) : ∀ p ∈ d, p.1 ≠ k := by
-  unfold Py.dictGet? at h
-  simp only [Option.map_eq_none_iff, List.find?_eq_none, beq_iff_eq] at h
-  exact h
 
 /-- lifting a (decidable, kernel-checked) property of all entries to `cm` -/
 theorem cm_cases (c : Nat) : cm c = c ∨ ([c], [cm c]) ∈ Gen.util._char_map := by
@@ -228,10 +207,13 @@ theorem clean_eq (s d : Str) : Gen.util.clean s d = .ok (cleanP s d) := by
     ⦃⌜True⌝⦄ Gen.util.clean s d ⦃post⟨fun r => ⌜r = cleanP s d⌝, fun _ => ⌜False⌝⟩⦄ :=
   triple_of_Ok ⟨_, clean_eq s d, rfl⟩
 
+/-- the generated pattern of `util._digits_re` is `^[0-9]+\\Z` (CPython's parse, serialised by the translator) -/
+theorem digits_re_eq : Gen.util._digits_re = Re.digitsZ := rfl
+
 theorem isdigits_eq (s : Str) : Gen.util.isdigits s = .ok (isDigitsB s) := by
-  unfold Gen.util.isdigits Re.match_ isDigitsB
-  simp only []
-  cases h : (!s.isEmpty && s.all isAsciiDigit) <;> simp <;> rfl
+  unfold Gen.util.isdigits isDigitsB
+  simp only [digits_re_eq, Re.match_digitsZ_isSome]
+  rfl
 
 @[spec] theorem isdigits_spec (s : Str) :
     ⦃⌜True⌝⦄ Gen.util.isdigits s ⦃post⟨fun b => ⌜b = isDigitsB s⌝, fun _ => ⌜False⌝⟩⦄ :=
